@@ -14,5 +14,7 @@ func Specs() map[string]*PropSpec {
 	add(&PropSpec{ID: "C13", Explanation: "deadlock freedom", Rules: []RuleRef{rR14pair, rR14order, rR15m}})
 	add(&PropSpec{ID: "C06", Explanation: "lazy expiry", Rules: []RuleRef{rR21, rR22}})
 	add(&PropSpec{ID: "C03", Explanation: "reply framing", Rules: []RuleRef{rR8, rR13, rR12c}})
+	add(&PropSpec{ID: "C01", Explanation: "string and key commands", Rules: []RuleRef{rR9, rR7, rR19}})
+	add(&PropSpec{ID: "C09", Explanation: "lists", Rules: []RuleRef{rR20a, rR20b, rR20c, rR20d}})
 	return m
 }
